@@ -141,7 +141,9 @@ type h2eng struct {
 	srvStreamWin                                             map[uint32]int64
 	gotSrvSettings                                           bool
 	connCap                                                  int64 // the connection receive window the server started with (C33)
+	outq                                                     []func()
 	resetDone                                                map[uint32]bool
+	syncSeen                                                 int
 	violationSent, sendersDone, holdAll, violationImpossible bool
 	violationAt                                              time.Duration
 
@@ -190,6 +192,7 @@ func (e *h2eng) start(srv *Server, settings []xh2.Setting) {
 		e.recomputeAllowance()
 	}
 	simrt.GoNamed("h2client.reader", nil, e.reader)
+	simrt.GoNamed("h2client.writer", nil, e.writer)
 }
 
 func (e *h2eng) writeSettings(settings ...xh2.Setting) {
@@ -277,6 +280,10 @@ func (e *h2eng) openStream(id uint32, fields []xhpack.HeaderField, endStream boo
 func (e *h2eng) writeData(id uint32, data []byte, pad int, end bool) error {
 	e.wmu.Lock()
 	defer e.wmu.Unlock()
+	return e.writeDataLocked(id, data, pad, end)
+}
+
+func (e *h2eng) writeDataLocked(id uint32, data []byte, pad int, end bool) error {
 	e.s.Note("op", fmt.Sprintf("client DATA s%d len=%d pad=%d end=%v", id, len(data), pad, end))
 	if pad > 0 {
 		return e.fr.WriteDataPadded(id, end, data, make([]byte, pad-1))
@@ -290,9 +297,28 @@ func (e *h2eng) writeWindowUpdate(id uint32, n uint32) {
 	} else if _, ok := e.streamWin[id]; ok {
 		e.streamWin[id] += int64(n)
 	}
-	e.wmu.Lock()
-	e.fr.WriteWindowUpdate(id, n)
-	e.wmu.Unlock()
+	e.post(func() { e.fr.WriteWindowUpdate(id, n) })
+}
+
+// post hands a frame write to the client's writer task: the reader never blocks on the
+// connection's write side (a client that did could deadlock with a server that is itself
+// blocked writing to it).
+func (e *h2eng) post(f func()) {
+	e.outq = append(e.outq, f)
+}
+
+func (e *h2eng) writer() {
+	for {
+		simrt.WaitUntil(func() bool { return len(e.outq) > 0 || e.readerDone })
+		if len(e.outq) == 0 {
+			return
+		}
+		f := e.outq[0]
+		e.outq = e.outq[1:]
+		e.wmu.Lock()
+		f()
+		e.wmu.Unlock()
+	}
 }
 
 // reader consumes server frames, records them and reacts as a well-behaved peer would.
@@ -395,11 +421,12 @@ func (e *h2eng) react(r rframe) {
 		}
 		e.gotSrvSettings = true
 		if e.ackSettings {
-			e.wmu.Lock()
-			e.fr.WriteSettingsAck()
-			e.wmu.Unlock()
+			e.post(func() { e.fr.WriteSettingsAck() })
 		}
 	case xh2.FramePing:
+		if r.Ack && len(r.Data) == 8 && string(r.Data[:4]) == "sync" {
+			e.syncSeen = int(r.Data[4])<<24 | int(r.Data[5])<<16 | int(r.Data[6])<<8 | int(r.Data[7])
+		}
 		if r.Ack && len(r.Data) == 8 && string(r.Data[:4]) == "rst!" {
 			// the server has processed everything the client sent before this PING, the RST_STREAM included
 			id := uint32(r.Data[4])<<24 | uint32(r.Data[5])<<16 | uint32(r.Data[6])<<8 | uint32(r.Data[7])
@@ -411,9 +438,7 @@ func (e *h2eng) react(r rframe) {
 		if !r.Ack && e.ackPing {
 			var d [8]byte
 			copy(d[:], r.Data)
-			e.wmu.Lock()
-			e.fr.WritePing(true, d)
-			e.wmu.Unlock()
+			e.post(func() { e.fr.WritePing(true, d) })
 		}
 	case xh2.FrameWindowUpdate:
 		if r.Stream == 0 {
@@ -552,6 +577,7 @@ type hplan struct {
 	ClientReset        bool        // the client resets this stream in mid-response
 	HoldUntil          func() bool // the handler waits for this before answering (nil: no wait)
 	HoldBeforeRead     func() bool // the handler waits for this before it reads the body
+	OnStart, OnDone    func()
 
 	// observed
 	Started, Done                 bool
@@ -571,6 +597,12 @@ func (e *h2eng) serveHTTP(w http.ResponseWriter, r *http.Request) {
 		e.byPath["?"+r.URL.Path] = p
 	}
 	p.Started = true
+	if p.OnStart != nil {
+		p.OnStart()
+	}
+	if p.OnDone != nil {
+		defer p.OnDone()
+	}
 	p.SeenMethod, p.SeenHost, p.SeenURI, p.SeenHdr = r.Method, r.Host, r.RequestURI, r.Header
 	e.s.Note("handler", fmt.Sprintf("start %s %s", r.Method, r.URL.Path))
 	if p.HoldBeforeRead != nil {
